@@ -28,8 +28,8 @@ func verifRenderer() *DefaultRuleRenderer {
 var (
 	verifSrcNets    = []string{"10.0.0.0/8", "10.1.0.0/16", "192.168.7.0/24"}
 	verifDstNets    = []string{"172.16.0.0/12", "172.16.5.0/24", "8.8.8.8/32"}
-	verifNotSrcNets = []string{"10.1.2.0/24", "10.255.0.0/16"}
-	verifNotDstNets = []string{"172.16.5.128/25", "172.20.0.0/16"}
+	verifNotSrcNets = []string{"10.1.2.0/24", "10.255.0.0/16", "0.0.0.0/0"} // the last: a negated catch-all makes the rule unsatisfiable
+	verifNotDstNets = []string{"172.16.5.128/25", "172.20.0.0/16", "0.0.0.0/0"}
 )
 
 func verifPorts(n int, base uint32) []*proto.PortRange {
@@ -66,8 +66,8 @@ func verifShapeRule(shape int) (*proto.Rule, int) {
 	r.Protocol = &proto.Protocol{NumberOrName: &proto.Protocol_Name{Name: "tcp"}}
 	r.SrcNet = verifSrcNets[:digit(4)]
 	r.DstNet = verifDstNets[:digit(3)]
-	r.NotSrcNet = verifNotSrcNets[:digit(3)]
-	r.NotDstNet = verifNotDstNets[:digit(2)]
+	r.NotSrcNet = verifNotSrcNets[:digit(4)]
+	r.NotDstNet = verifNotDstNets[:digit(4)]
 	switch digit(4) {
 	case 1:
 		r.DstPorts = verifPorts(1, 80)
@@ -96,7 +96,7 @@ func verifShapeRule(shape int) (*proto.Rule, int) {
 	return r, shape
 }
 
-const verifNumShapes = 4 * 4 * 3 * 3 * 2 * 4 * 2 * 3 * 2 * 2
+const verifNumShapes = 4 * 4 * 3 * 4 * 4 * 4 * 2 * 3 * 2 * 2
 
 // verifBlocks counts the positive match blocks the renderer will need (documented rule: a block
 // per over-full port list / per multi-CIDR list).
